@@ -392,8 +392,10 @@ func (b *Builder) prepareBuild() (string, error) {
 		// old peer not exists, or target is learner while old one is voter.
 		o := b.originPeers[n.GetStoreId()]
 		if o == nil || (!b.allowDemote && !core.IsLearner(o) && core.IsLearner(n)) {
-			if n.GetId() == 0 {
-				// Allocate peer ID if need.
+			if n.GetId() == 0 || o != nil {
+				// Allocate peer ID if need. A peer that is removed and added again (voter -> learner
+				// without demote support) needs a new ID too: the store refuses a removed peer's ID,
+				// and RemovePeer.ConfVerChanged cannot tell the new peer from the removed one.
 				id, err := b.cluster.AllocID()
 				if err != nil {
 					return "", err
